@@ -429,10 +429,77 @@ fn model_threads_tokens(qss: &[Vec<Q>]) -> String {
 // ------------------------------------------------------------------------------------------------
 // exec
 // ------------------------------------------------------------------------------------------------
+/// A query issued while the RESULT of an earlier query is still alive: `supertypes_of` / `inheritance` hand out a
+/// guard into the cache (`dashmap::mapref::one::Ref`), and a cold query has to insert into the cache.  One thread,
+/// `n` sibling defs below `marker`; the first answer is kept while every other def is queried cold.  Run on a thread of
+/// its own with a deadline: when it does not come back it is left behind (it blocks on a namespace nobody else uses).
+fn exec_held(n: usize, inh: bool, out: &mut CaseOut) {
+    out.nontrivial = true;
+    out.stat("held");
+    let mut text = String::from("ver:\"3.0\"\ndef,is\n^marker,\n");
+    for i in 0..n {
+        text.push_str(&format!("^t{i},[^marker]\n"));
+    }
+    let (tx, rx) = std::sync::mpsc::channel::<Result<usize, String>>();
+    std::thread::spawn(move || {
+        let v = match libhaystack::encoding::zinc::decode::from_str(&text) {
+            Ok(v) => v,
+            Err(e) => return tx.send(Err(format!("defs grid: {e}"))).unwrap_or(()),
+        };
+        let grid = match Grid::try_from(&v) {
+            Ok(g) => g,
+            Err(e) => return tx.send(Err(format!("defs grid: {e}"))).unwrap_or(()),
+        };
+        let ns: &'static Namespace<'static> = Box::leak(Box::new(Namespace::make(grid)));
+        let first = Symbol::from("t0");
+        let mut wrong = 0usize;
+        if inh {
+            let held = ns.inheritance(&first);
+            for i in 1..n {
+                if ns.inheritance(&Symbol::from(format!("t{i}").as_str())).len() != 2 {
+                    wrong += 1;
+                }
+            }
+            if held.len() != 2 {
+                wrong += 1;
+            }
+        } else {
+            let held = ns.supertypes_of(&first);
+            for i in 1..n {
+                if ns.supertypes_of(&Symbol::from(format!("t{i}").as_str())).len() != 1 {
+                    wrong += 1;
+                }
+            }
+            if held.len() != 1 {
+                wrong += 1;
+            }
+        }
+        let _ = tx.send(Ok(wrong));
+    });
+    match rx.recv_timeout(std::time::Duration::from_secs(8)) {
+        Ok(Ok(0)) => {}
+        Ok(Ok(w)) => out.fail("history_dependent", format!("{w} answers differ while an earlier answer is kept alive")),
+        Ok(Err(e)) => out.fail("harness", e),
+        Err(_) => out.fail(
+            "guard_deadlock",
+            format!(
+                "one thread: the answer of {}(^t0) is kept alive and the other {} defs are queried cold: a query never returns (the cache insert waits for the shard lock the kept answer holds)",
+                if inh { "inheritance" } else { "supertypes_of" },
+                n - 1
+            ),
+        ),
+    }
+}
+
 pub fn exec(_label: &str, input: &str, out: &mut CaseOut) {
     install_hook();
     let mut rd = vx::Rd::new(input);
     let mode = rd.tok().unwrap_or("");
+    if mode == "held" {
+        let n: usize = rd.num().unwrap_or(2000);
+        let inh = rd.tok() == Some("inh");
+        return exec_held(n, inh, out);
+    }
     let Some(src) = GraphSrc::read(&mut rd) else {
         out.fail("harness", "unparsable C14 input".into());
         return;
@@ -851,6 +918,11 @@ fn emit(ctx: &mut Ctx, label: &str, mode: &str, src: &GraphSrc, tail: Vec<String
 
 pub fn generate(ctx: &mut Ctx) {
     let mut rng = ctx.rng.fork();
+    // an earlier answer kept alive across cold queries (known finding GUARD)
+    ctx.case("held:sup", "held 2000 sup");
+    if !ctx.quick() {
+        ctx.case("held:inh", "held 2000 inh");
+    }
     let some = |s: &str| Some(s.to_string());
     // ---- forced interleavings ---------------------------------------------------------------
     let diamond = vec![
